@@ -553,6 +553,19 @@ def install(eng):
         return opt(eng, oty, v)
     m(r'^(std::option::|core::option::)?Option::(cloned|copied)$', m_opt_cloned)
 
+    def m_opt_get_or_insert(eng, args, ctx):
+        r, x = args
+        cell = r.cell
+        o = cell.get(eng)
+        if variant_is(eng, o, 0):
+            v = x if 'with' not in ctx.norm.split('::')[-1] else eng.call_value(ctx.frame, x, [])
+            o = opt(eng, o.ty, v)
+            cell.set(eng, o)
+        if 'Some' not in (o.payload or {}) or 0 not in o.payload['Some']:
+            payload0(eng, o, 'Some')
+        return Ref(o.payload['Some'][0])
+    m(r'^(std::option::|core::option::)?Option::(get_or_insert|get_or_insert_with)$', m_opt_get_or_insert)
+
     def m_from_elem(eng, args, ctx):
         x, n = args
         dty = norm_ty(ctx.dest_ty) if ctx.dest_ty else None
